@@ -470,19 +470,20 @@ def _c17(bindir, tier, seed):
 # ---- C12 ---------------------------------------------------------------------------------------------------
 meta("C12", level="exploration",
      rule="T in {2,3,4,8,16,32} threads released by a barrier emit in tight loops through ONE shared Arc<StatsdClient> into a buffered sink (capacities 16/24/64/512(default)/1432), "
-          "metric keys carry (thread, sequence) and random padding (some oversize => bypass), up to 2 threads also flush at random. Sinks: BufferedSpyMetricSink (channel), "
+          "metric keys carry (thread, sequence) and random padding (some oversize => bypass), up to 2 threads also flush at random. Sinks: BufferedSpyMetricSink (channel), the same behind a QueuingMetricSink (emit and flush race with the background thread), "
           "BufferedUnixMetricSink with a draining receiver, BufferedUdpMetricSink observed at the interposed sendto. Oracle over the combined datagram stream: every datagram is whole "
           "acknowledged metrics each followed by \\n and <= capacity, or one oversize metric alone without terminator (F1); every Ok-acknowledged metric appears exactly once (F2); each "
           "thread's buffered metrics appear in program order. A run in which no datagram mixes two threads' lines is trivial. distinct = (sink, T, capacity, thread-id trigram in stream order)",
      assumptions=["schedules are sampled from the OS scheduler under stress (no controlled scheduler inside the sink's mutex: nothing interleaves there)",
                   "loop-back UDP may drop at the receiver under load, therefore the interposer log (payload copies at sendto) is taken as the wire for UDP"],
-     min_evaluations=20, must_observe={"datagrams_mixing_lines_of_several_threads": 1000, "thread_switches_in_stream": 5000, "acknowledged_metrics_checked": 100000, "runs_spy": 5, "runs_unix": 3, "runs_udp": 3})
+     min_evaluations=20, must_observe={"datagrams_mixing_lines_of_several_threads": 1000, "thread_switches_in_stream": 5000, "acknowledged_metrics_checked": 100000, "runs_spy": 5, "runs_unix": 3, "runs_udp": 3, "runs_queue-spy": 3})
 
 
 @plan("C12")
 def _c12(bindir, tier, seed):
     q = tier == QUICK
     jobs = shards(bindir, "conc_driver", "C12-spy", seed, 8, ["--sink", "spy", "--cases", "20" if q else "150"], 3000)
+    jobs += shards(bindir, "conc_driver", "C12-queue-spy", seed, 4, ["--sink", "queue-spy", "--cases", "10" if q else "100"], 3000)
     jobs += shards(bindir, "conc_driver", "C12-unix", seed, 4, ["--sink", "unix", "--cases", "10" if q else "100"], 3000)
     jobs += shards(bindir, "conc_driver", "C12-udp", seed, 4, ["--sink", "udp", "--cases", "10" if q else "100"], 3000)
     return jobs
